@@ -36,4 +36,5 @@ func main() {
 	genRuneWidth()
 	genConsts()
 	genTerminfo()
+	genAcs()
 }
